@@ -25,7 +25,7 @@
 (***************************************************************************)
 EXTENDS Integers, FiniteSets, Sequences, TLC
 
-CONSTANTS Actors, Menus, Inits, PruneBeforeWrite, LooseBeforePacked, StaleSnapshot
+CONSTANTS Actors, Menus, Inits, PruneBeforeWrite, LooseBeforePacked, StaleSnapshot, StaleShortcut
 
 None == 0 - 1
 
@@ -96,7 +96,9 @@ LockRefErr(a, from) ==
 CasCompare(a) ==                \* under the lock: loose file, else packed-refs (re-read, or the stale snapshot)
     /\ pc[a] = "c_cmp"
     /\ LET orig == IF loose # 0 THEN loose ELSE (IF StaleSnapshot THEN snap[a] ELSE packed)
-           cur  == IF loose # 0 THEN loose ELSE snap[a]
+           \* the "already has this value" shortcut: packed-refs re-read under the lock (fix d0a4507), or the
+           \* snapshot taken before the lock (StaleShortcut: the code before that fix, F62)
+           cur  == IF loose # 0 THEN loose ELSE (IF StaleShortcut THEN snap[a] ELSE packed)
        IN IF op[a].old # -1 /\ orig # op[a].old
           THEN Goto(a, "unlock_ref") /\ Ret(a, 0)
           ELSE IF cur # 0 /\ cur = op[a].new
@@ -272,6 +274,9 @@ VisIsAbs == Vis = abs
 \* a conditional update takes effect only at a state where its condition holds
 CasSound == \A a \in Actors :
     (pc[a] = "c_write" /\ op[a].k = "cas" /\ op[a].old # -1) => abs = op[a].old
+\* ... and reports success without writing only at a state where the ref already holds the new value
+ShortcutSound == \A a \in Actors :
+    (pc[a] = "unlock_ref" /\ op[a].k = "cas" /\ res[a] = 1) => abs = op[a].new
 AddSound == \A a \in Actors : (pc[a] = "c_write" /\ op[a].k = "add") => abs = 0
 DelSound == \A a \in Actors :
     (pc[a] \in {"d_packed", "d_packed_w", "d_loose"} /\ op[a].old # -1 /\ res[a] = -9) => (abs = op[a].old \/ abs = 0)
